@@ -7,8 +7,8 @@
 (*                                                                         *)
 (* edges  sequence (one per dimension) of strictly increasing integer      *)
 (*        sequences (ranks of the real numbers: only comparisons are used) *)
-(* flow   sequence of [x |-> coordinates, h |-> has a context]; a value is *)
-(*        identified by its position in the flow                           *)
+(* flow   sequence of [x |-> coordinates, h |-> has a context, p |-> is a  *)
+(*        (data, context) pair]; a value is identified by its position     *)
 (* result of an inner analysis for one cell: [t |-> tag, ids |-> positions *)
 (*        seen by the accumulator, src |-> position of the last value with *)
 (*        a context (0: none), mut |-> last write of the context-mutating  *)
@@ -92,9 +92,12 @@ ArrivingCtx(flow, i) == Ctx(IF flow[i].h THEN i ELSE 0, 0)
 HistCtxSem(edges, flow) == LET l == LastInside(flow, edges, Len(flow)) IN
                            IF l = 0 THEN Ctx(0, 0) ELSE ArrivingCtx(flow, l)
 Mutates(kind) == kind = "mutate"
+\* (p: the value is a (data, context) pair - possibly with an empty context {} of its own, which a
+\* mutating inner element then writes into; a bare value has no context object of its own)
 FlowCtxSem(kind, edges, flow) ==
   [i \in 1..Len(flow) |->
-     IF Mutates(kind) /\ flow[i].h /\ IsCell(CellOf(flow[i].x, edges), edges) THEN Ctx(i, i) ELSE ArrivingCtx(flow, i)]
+     IF Mutates(kind) /\ flow[i].p /\ IsCell(CellOf(flow[i].x, edges), edges)
+     THEN Ctx(ArrivingCtx(flow, i).src, i) ELSE ArrivingCtx(flow, i)]
 
 (***************************************************************************)
 (* IterateBins and MapBins on a histogram h (a function on Cells(edges)).  *)
